@@ -68,11 +68,20 @@ Definition head_parse (s : bytes) : option (Z * list field * bytes) :=
       end
   end.
 
+(* a stream of exactly the declared size whose read error arrives together with its last byte: every declared byte was
+   there, but the stream also failed: delivering the body and giving up on the connection are both acceptable *)
+Definition ambiguous_body (b : want_body) : bool :=
+  match b with
+  | WStream n s => (0 <=? n) && (slen s =? n) && st_fail s && st_with s && negb (slen s =? 0)
+  | WBytes _ => false
+  end.
+
 (* a response whose body stream cannot be delivered as declared: writing it fails and the server closes the connection
    without flushing, so anything still buffered (also earlier pipelined responses) may be cut off *)
 Definition undeliverable (r : meth * list hop) : bool :=
   let w := want_of (snd r) in
-  negb (bodyless (fst r) (w_status w)) && match wanted_bytes (w_body w) with None => true | Some _ => false end.
+  negb (bodyless (fst r) (w_status w)) &&
+  (match wanted_bytes (w_body w) with None => true | Some _ => false end || ambiguous_body (w_body w)).
 
 (* ---------- the judgement on a connection's bytes ----------
    reqs: the requests the peer sent (method, handler program), in order;
@@ -88,7 +97,7 @@ Fixpoint judge_conn (reqs : list (meth * list hop)) (wire : bytes) (closed : boo
         match wanted_bytes (w_body w) with
         | Some body =>
             match resp_parse m wire with
-            | None => closed && existsb undeliverable rest       (* cut off by a later failed Write *)
+            | None => closed && existsb undeliverable ((m, prog) :: rest)   (* cut off by a failed Write (this one only if ambiguous, else a later one) *)
             | Some p =>
                 (p_status p =? w_status w) &&
                 beq (p_body p) (if bodyless m (w_status w) then [] else body) &&
